@@ -1680,9 +1680,25 @@ fn history(family: &str, seed: u64, idx: usize, thorough: bool, out: &mut impl W
                 let w = c.any_peer();
                 // ... and sometimes the host's application does something in the very frame in which it asks for the promotion:
                 // it is still the host of an ordinary session, and what it does reaches the promoted client over the old connection
-                if ok && c.rng.chance(1, 3) {
+                if ok && c.rng.chance(1, 2) {
                     c.s.trace.push(json!({"ev":"epoch","writer":host,"with_request":true}));
-                    op(&mut c, host);
+                    // in the request's frame or in the host's next one (the request has left, `NewHost` is frames away)
+                    if c.rng.chance(1, 2) {
+                        c.s.step(host);
+                    }
+                    // a new entity or a despawn: what the former host's application does here is judged (not D18's)
+                    if c.live.len() > 2 && c.rng.chance(1, 2) {
+                        let i = c.rng.below(c.live.len());
+                        let h = c.live[i];
+                        if c.s.despawn(host, h) {
+                            c.live.swap_remove(i);
+                        }
+                    } else {
+                        let h = c.fresh();
+                        let comps = if c.rng.chance(1, 2) { vec![small_val(&mut c.rng, Ty::A)] } else { vec![] };
+                        c.s.spawn(host, h, true, &comps, None);
+                        c.live.push(h);
+                    }
                 }
                 for _ in 0..c.rng.range(20, 40) {
                     if busy && c.rng.chance(1, 4) {
@@ -1909,6 +1925,15 @@ fn history(family: &str, seed: u64, idx: usize, thorough: bool, out: &mut impl W
                             c.s.step(x);
                         }
                         c.s.trace.push(json!({"ev":"away_write","peer":x,"h":hh,"ty":ty.name()}));
+                    } else if c.rng.chance(1, 4) && c.live.len() >= 2 {
+                        // ... or re-parents an entity it holds
+                        let a = *c.rng.pick(&c.live.clone());
+                        let b = *c.rng.pick(&c.live.clone());
+                        if b < a {
+                            c.s.set_parent(x, a, b);
+                            c.s.step(x);
+                            c.s.trace.push(json!({"ev":"away_link","peer":x,"h":a,"parent":b}));
+                        }
                     }
                     for _ in 0..c.rng.range(1, 5) {
                         op(&mut c, w, &mut assets);
